@@ -45,6 +45,9 @@ def cmd_check(args):
     run.setup_paths()
     registry = run.load_contracts()
     evidence_path = os.path.join(HERE, "evidence", f"{pid}.json")
+    if args.unit or os.environ.get("VERIF_REPO", "/repo") != "/repo":
+        # development runs (unit filter / scratch copy) never overwrite the evidence of the registered check
+        evidence_path = os.path.join(HERE, ".cache", "dev-evidence", f"{pid}.json")
     os.makedirs(os.path.dirname(evidence_path), exist_ok=True)
     replay_dir = os.path.join(HERE, "replays")
     os.makedirs(replay_dir, exist_ok=True)
